@@ -1025,6 +1025,7 @@ func (e *Engine) addPEGObligations() {
 	e.languageObligations()
 	e.stickyFlagObligations()
 	e.positionWriterObligations()
+	e.representationPrivacy()
 	e.nativeTableObligations()
 }
 
@@ -1221,6 +1222,70 @@ func (e *Engine) positionWriterObligations() {
 	}
 	e.frameObl("frame:parser.pt/written-only-by-read-restore", []string{"C19"}, len(bad) == 0, "",
 		"the parser position p.pt is assigned only by (*parser).read and (*parser).restore, whose contracts fix how offset, line and column follow the text", strings.Join(bad, "; "))
+}
+
+// representationPrivacy (C12, C02): ValueMap's contracts speak about its abstract content (vmHas / vmGet); the proof that
+// every operation maintains the representation invariant covers all code only if nobody outside the type's own
+// methods touches the tables.  Every selection of read / dirty / misses / mu on a ValueMap outside a method of
+// ValueMap (or the spec functions of the contracts file) is reported.
+func (e *Engine) representationPrivacy() {
+	info := e.P.Info
+	private := map[string]bool{"read": true, "dirty": true, "misses": true, "mu": true}
+	var bad []string
+	sites := 0
+	for _, key := range sortedKeys(e.P.Funcs) {
+		fi := e.P.Funcs[key]
+		if fi.Decl == nil || fi.Decl.Body == nil || fi.File == ContractsFileName || strings.HasSuffix(fi.File, "_test.go") {
+			continue
+		}
+		if strings.HasPrefix(e.posStr(fi.Decl.Pos()), ContractsFileName) {
+			continue // spec functions and synthetic clause functions
+		}
+		own := strings.HasPrefix(key, "(*ValueMap).") || strings.HasPrefix(key, "(ValueMap).")
+		ast.Inspect(fi.Decl.Body, func(n ast.Node) bool {
+			se, ok := n.(*ast.SelectorExpr)
+			if !ok || !private[se.Sel.Name] {
+				return true
+			}
+			t := info.TypeOf(se.X)
+			if t == nil || strings.TrimPrefix(e.typeStr(t), "*") != "ValueMap" {
+				return true
+			}
+			sites++
+			if !own {
+				bad = append(bad, key+" reads or writes ValueMap."+se.Sel.Name+" at "+e.posStr(se.Pos()))
+			}
+			return true
+		})
+	}
+	if sites == 0 {
+		bad = append(bad, "no access to ValueMap's tables found at all (fields renamed?)")
+	}
+	// every method of ValueMap is under a contract that `holds` the object invariant (otherwise a method could leave
+	// the tables in a state the other methods' proofs do not cover)
+	var lacking []string
+	nm := 0
+	for _, key := range sortedKeys(e.P.Funcs) {
+		if !strings.HasPrefix(key, "(*ValueMap).") {
+			continue
+		}
+		fi := e.P.Funcs[key]
+		if fi.File == ContractsFileName || strings.HasSuffix(fi.File, "_test.go") {
+			continue
+		}
+		nm++
+		c := e.P.CF.Contracts[key]
+		if c == nil || (len(c.Holds) == 0 && !c.Inline) {
+			lacking = append(lacking, key)
+		}
+	}
+	if nm == 0 {
+		lacking = append(lacking, "no method of ValueMap found")
+	}
+	e.frameObl("frame:ValueMap/methods-hold-invariant", []string{"C12"}, len(lacking) == 0, "",
+		"every method of ValueMap has a contract that requires and re-establishes the representation invariant (`holds`)", "without `holds`: "+strings.Join(lacking, ", "))
+	e.frameObl("frame:ValueMap/representation-private", []string{"C12", "C02"}, len(bad) == 0, "",
+		"ValueMap's tables (read, dirty, misses, mu) are touched only by ValueMap's own methods, so its contracts over the abstract content hold for every client", strings.Join(bad, "; "))
 }
 
 // stickyFlagObligations (C07): ParserData.codeOverflow records that instructions were dropped; Parse turns it into an
